@@ -149,7 +149,8 @@ func verifDescribe(e expr.Expression) (kind, param string) {
 	case *expr.ComparisonExpression:
 		return "Comparison", string(n.Op)
 	case *expr.ArithmeticExpression:
-		return "Arithmetic", ""
+		name := runtime.FuncForPC(reflect.ValueOf(n.Op).Pointer()).Name()
+		return "Arithmetic", name[strings.LastIndex(name, ".")+1:]
 	case *expr.ConcatExpression:
 		return "Concat", ""
 	case *expr.ExternalConstantExpression:
@@ -197,6 +198,31 @@ func (ev *verifEval) verifItems(c system.Collection) ([]string, string) {
 		h.Write([]byte{0})
 	}
 	return ids, strconv.FormatUint(h.Sum64(), 36)
+}
+
+// verifValues spells the System value of every item of a short collection ("<Type>:<String()>", "" for an item that
+// has none: complex elements, nil) so that the trace specification can apply the value-level rules to a node's logged
+// operands. Collections of more than eight items and values longer than 256 bytes are not spelled (empty list).
+func verifValues(c system.Collection) []string {
+	vals := make([]string, 0, len(c))
+	if len(c) > 8 {
+		return vals
+	}
+	for _, it := range c {
+		s := ""
+		if it != nil {
+			if rv := reflect.ValueOf(it); !(rv.Kind() == reflect.Ptr && rv.IsNil()) {
+				if v, err := system.From(it); err == nil && v != nil {
+					s = strings.TrimPrefix(fmt.Sprintf("%T:%v", v, v), "system.")
+				}
+			}
+		}
+		if len(s) > 256 {
+			return []string{}
+		}
+		vals = append(vals, s)
+	}
+	return vals
 }
 
 // verifClass is the operand class of three-valued logic: Empty, True, False, a Single other item, or Many items.
@@ -256,7 +282,7 @@ func (n *verifNode) Evaluate(ctx *expr.Context, input system.Collection) (system
 	depth := ev.depth
 	kind, param := verifDescribe(n.inner)
 	in, inh := ev.verifItems(input)
-	ev.emit(map[string]any{"e": "B", "ev": ev.id, "d": depth, "k": kind, "p": param, "now": strconv.FormatInt(ctx.Now.UnixNano(), 10), "in": in, "inh": inh, "ic": verifClass(input)})
+	ev.emit(map[string]any{"e": "B", "ev": ev.id, "d": depth, "k": kind, "p": param, "now": strconv.FormatInt(ctx.Now.UnixNano(), 10), "in": in, "inh": inh, "ic": verifClass(input), "inv": verifValues(input)})
 	defer func() {
 		if r := recover(); r != nil {
 			verifTrace.Lock()
@@ -267,10 +293,11 @@ func (n *verifNode) Evaluate(ctx *expr.Context, input system.Collection) (system
 	}()
 	out, err := n.inner.Evaluate(ctx, input)
 	ina, inha := ev.verifItems(input)
-	rec := map[string]any{"e": "E", "ev": ev.id, "d": depth, "k": kind, "ok": err == nil, "ina": ina, "inha": inha, "out": []string{}, "cls": "E", "hi": false, "iv": 0}
+	rec := map[string]any{"e": "E", "ev": ev.id, "d": depth, "k": kind, "ok": err == nil, "ina": ina, "inha": inha, "out": []string{}, "cls": "E", "hi": false, "iv": 0, "outv": []string{}}
 	if err == nil {
 		rec["out"], _ = ev.verifItems(out)
 		rec["cls"] = verifClass(out)
+		rec["outv"] = verifValues(out)
 		if len(out) == 1 {
 			if v, e2 := system.From(out[0]); e2 == nil {
 				if i, ok := v.(system.Integer); ok {
